@@ -19,7 +19,11 @@ def _h(*parts) -> str:
 
 
 def digest(obj) -> object:
-    """Content hash of a payload tree, computed wherever it is called (inside the worker for pool runs)."""
+    """Content hash of a payload tree, computed wherever it is called (inside the worker for pool runs).
+
+    Arrays and tensors are hashed by their *logical* content (dtype, shape, elements in index order): the
+    memory layout of what arrives may legitimately differ from what was sent (a strided view arrives as a
+    compact copy), the elements may not."""
     import numpy as np
     import torch
     if isinstance(obj, dict):
@@ -27,23 +31,170 @@ def digest(obj) -> object:
     if isinstance(obj, (list, tuple)):
         return [digest(v) for v in obj]
     if isinstance(obj, np.ndarray):
-        return ["nd", str(obj.dtype), list(obj.shape), _h(np.ascontiguousarray(obj).tobytes())]
+        # values, not bytes: NumPy itself hands back a non-contiguous big-endian array in native byte order
+        nat = obj.dtype.newbyteorder("=")
+        return ["nd", nat.str if nat.names is None else str(nat), list(obj.shape), _h(obj.astype(nat, copy=False).tobytes(order="C"))]
     if isinstance(obj, torch.Tensor):
         if obj.layout == torch.sparse_coo:
-            o = obj.coalesce() if obj.is_coalesced() else obj
-            return ["coo", list(obj.shape), digest(o._indices().numpy()), digest(o._values().numpy())]
-        if obj.layout == torch.sparse_csr:
-            return ["csr", list(obj.shape), digest(obj.crow_indices().numpy()), digest(obj.col_indices().numpy()), digest(obj.values().numpy())]
-        if obj.layout == torch.sparse_csc:
-            return ["csc", list(obj.shape), digest(obj.ccol_indices().numpy()), digest(obj.row_indices().numpy()), digest(obj.values().numpy())]
-        return ["dense", str(obj.dtype), list(obj.shape), _h(obj.contiguous().numpy().tobytes())]
+            return ["coo", str(obj.dtype), list(obj.shape), bool(obj.is_coalesced()), digest(obj._indices().numpy()), _tdense(obj._values())]
+        if obj.layout in (torch.sparse_csr, torch.sparse_bsr):
+            return [str(obj.layout), str(obj.dtype), list(obj.shape), _tdense(obj.crow_indices()), _tdense(obj.col_indices()), _tdense(obj.values())]
+        if obj.layout in (torch.sparse_csc, torch.sparse_bsc):
+            return [str(obj.layout), str(obj.dtype), list(obj.shape), _tdense(obj.ccol_indices()), _tdense(obj.row_indices()), _tdense(obj.values())]
+        return _tdense(obj)
     return ["py", repr(obj)]
+
+
+def _tdense(t):
+    import torch
+    c = t.detach().contiguous()
+    raw = c.view(torch.int16) if c.dtype == torch.bfloat16 else c
+    return ["dense", str(t.dtype), list(t.shape), _h(raw.numpy().tobytes())]
+
+
+# ---- payload leaves -------------------------------------------------------------------------------------
+# An array leaf is {"kind": "nd", "dtype", "shape", "data" (one int per element, index order), "layout",
+# "readonly"}: `layout` says how the array that holds these elements lies in memory.
+
+ND_LAYOUTS = ["C", "F", "T", "perm", "step", "neg", "cols", "frows", "bcast"]
+
+
+def _elements(vals, dt, shape):
+    import numpy as np
+    n = 1
+    for d in shape:
+        n *= d
+    vals = list(vals)[:n] + [0] * max(0, n - len(vals))
+    if dt.names is not None:
+        a = np.array([tuple(v + j for j in range(len(dt.names))) for v in vals], dtype=dt)
+    elif dt.kind in "US":
+        a = np.array([str(v) for v in vals], dtype=object).astype(dt) if vals else np.zeros(0, dtype=dt)
+    elif dt.kind == "c":
+        a = (np.array(vals, dtype="float64") + 1j * np.array(vals[::-1], dtype="float64")).astype(dt)
+    elif dt.kind == "b":
+        a = np.array([v % 2 == 1 for v in vals], dtype=dt)
+    elif dt.kind in "Mm":
+        a = np.array(vals, dtype="int64").astype(dt)
+    else:
+        a = np.array(vals, dtype="int64").astype(dt)
+    return a.reshape(shape)
+
+
+def build_nd(spec):
+    """The array with the given elements in the given memory layout (the logical content is the same for every
+    layout except `bcast`, which repeats the first slice)."""
+    import numpy as np
+    dt = np.dtype(spec["dtype"]) if not isinstance(spec["dtype"], list) else np.dtype([tuple(f) for f in spec["dtype"]])
+    shape = tuple(spec["shape"])
+    base = _elements(spec["data"], dt, shape)
+    lay = spec.get("layout", "C")
+    nd = base.ndim
+    if lay == "C" or nd == 0:
+        a = base.copy()
+    elif lay == "F":                                   # owns Fortran-ordered memory
+        a = np.asfortranarray(base)
+    elif lay == "T":                                   # a transposed view of a C-ordered array
+        a = np.ascontiguousarray(base.T).T
+    elif lay == "perm":                                # a view with permuted axes of a C-ordered array
+        axes = list(spec.get("axes") or range(nd))
+        inv = [axes.index(i) for i in range(nd)]
+        a = np.ascontiguousarray(base.transpose(inv)).transpose(axes)
+    elif lay == "step":                                # every second slice of a larger array
+        big = np.zeros((2 * shape[0],) + shape[1:], dtype=dt)
+        big[::2] = base
+        a = big[::2]
+    elif lay == "neg":                                 # negative stride
+        a = np.ascontiguousarray(base[::-1])[::-1]
+    elif lay == "cols":                                # inner columns of a wider array (1-d: a slice at an offset)
+        big = np.zeros(shape[:-1] + (shape[-1] + 3,), dtype=dt)
+        big[..., 2:-1] = base
+        a = big[..., 2:-1]
+    elif lay == "frows":                               # inner rows of a taller Fortran-ordered array
+        big = np.zeros((shape[0] + 2,) + shape[1:], dtype=dt, order="F")
+        big[1:-1] = base
+        a = big[1:-1]
+    elif lay == "bcast":                               # stride 0
+        a = np.broadcast_to(base[:1].copy(), shape) if shape[0] else base.copy()
+    else:
+        raise ValueError(lay)
+    if spec.get("readonly") and a.flags.writeable:
+        a.setflags(write=False)
+    return a
+
+
+def nd_info(a):
+    """What the Coq codec model needs to know about an array: how NumPy's own protocol-5 reduction (public
+    `__reduce_ex__(5)`, the contract of the model) ships it -- out of band as the C-ordered memory of an
+    axis permutation of it, or in band -- its item size, shape and elements (bytes, index order)."""
+    red = a.__reduce_ex__(5)
+    nd = a.ndim
+    if getattr(red[0], "__name__", "") == "_frombuffer":
+        order = red[1][3]
+        if order == "C":
+            p = list(range(nd))
+        elif order == "F":
+            p = list(range(nd))[::-1]
+        elif order == "K" and len(red[1]) > 4 and red[1][4] is not None:
+            p = [int(x) for x in red[1][4]]
+        else:
+            raise RuntimeError(f"unrecognised NumPy reduction order {order!r}")
+        q = [p.index(i) for i in range(nd)]
+        transport = ["oob", p, q]
+    else:
+        transport = ["inband"]
+    raw = a.tobytes(order="C")
+    k = a.itemsize
+    return {"transport": transport, "isz": k, "shape": list(a.shape), "elems": [list(raw[i * k:(i + 1) * k]) for i in range(a.size)],
+            "flags": "".join(c for c, f in (("C", a.flags.c_contiguous), ("F", a.flags.f_contiguous)) if f) or "-"}
+
+
+def build_tensor(spec):
+    import torch
+    k = spec["kind"]
+    dt = getattr(torch, spec.get("tdtype", "float32"))
+    shape = list(spec["shape"])
+    dense = torch.tensor(spec["data"], dtype=torch.float64).reshape(shape).to(dt)
+    lay = spec.get("tlayout", "C")
+    if k == "dense":
+        if lay == "T" and dense.ndim == 2:
+            return dense.t().contiguous().t()
+        if lay == "step" and dense.ndim >= 1:
+            big = torch.zeros([2 * shape[0]] + shape[1:], dtype=dt)
+            big[::2] = dense
+            return big[::2]
+        if lay == "0d":
+            return dense.reshape(-1)[0].clone()
+        return dense
+    if k == "coo":
+        c = dense.to_sparse_coo()
+        how = spec.get("coalesced", True)
+        if how is True:
+            return c
+        idx, val = c.indices(), c.values()
+        if how == "dup" and val.numel():                 # a repeated entry: not coalesced
+            idx, val = torch.cat([idx, idx[:, :1]], 1), torch.cat([val, val[:1]])
+        elif how == "unsorted":                          # entries in reverse order: not coalesced
+            idx, val = idx.flip(1), val.flip(0)
+        return torch.sparse_coo_tensor(idx, val, shape)
+    if k == "csr":
+        c = dense.to_sparse_csr()
+        if spec.get("idx32"):
+            c = torch.sparse_csr_tensor(c.crow_indices().int(), c.col_indices().int(), c.values(), shape)
+        return c
+    if k == "csc":
+        c = dense.to_sparse_csc()
+        if spec.get("idx32"):
+            c = torch.sparse_csc_tensor(c.ccol_indices().int(), c.row_indices().int(), c.values(), shape)
+        return c
+    if k == "bsr":
+        return dense.to_sparse_bsr((1, 1))
+    if k == "bsc":
+        return dense.to_sparse_bsc((1, 1))
+    raise ValueError(k)
 
 
 def build_payload(spec):
     """spec: nested lists/dicts with leaves {"kind": ..., ...} -> model object holding arrays and tensors."""
-    import numpy as np
-    import torch
     if isinstance(spec, list):
         return [build_payload(s) for s in spec]
     k = spec.get("kind")
@@ -52,18 +203,54 @@ def build_payload(spec):
     if k == "py":
         return spec["value"]
     if k == "nd":
-        a = np.array(spec["data"], dtype=np.dtype(spec["dtype"]))
-        return a.reshape(spec["shape"])
-    dense = torch.tensor(spec["data"], dtype=getattr(torch, spec.get("tdtype", "float32"))).reshape(spec["shape"])
-    if k == "dense":
-        return dense
-    if k == "coo":
-        return dense.to_sparse_coo()
-    if k == "csr":
-        return dense.to_sparse_csr()
-    if k == "csc":
-        return dense.to_sparse_csc()
-    raise ValueError(k)
+        return build_nd(spec)
+    return build_tensor(spec)
+
+
+def leaf_class(spec) -> str:
+    "the class of payload a leaf belongs to (part of the oracle key)"
+    k = spec["kind"]
+    if k == "nd":
+        return "nd:" + ("0d" if not spec["shape"] else spec.get("layout", "C"))
+    c = k
+    if k == "coo" and spec.get("coalesced", True) is not True:
+        c += ":uncoalesced"
+    if spec.get("tlayout", "C") != "C":
+        c += ":" + spec["tlayout"]
+    return c
+
+
+def changed_leaves(spec, want, got, path="model"):
+    "[(path, class, wanted digest, digest that arrived)] for every leaf whose digest differs"
+    if isinstance(spec, list):
+        if not isinstance(got, list) or len(got) != len(spec):
+            return [(path, "container", None, None)]
+        return [d for j, s in enumerate(spec) for d in changed_leaves(s, want[j], got[j], f"{path}[{j}]")]
+    if spec.get("kind") is None:
+        if not isinstance(got, dict) or sorted(got) != sorted(spec):
+            return [(path, "container", None, None)]
+        return [d for n, s in sorted(spec.items()) for d in changed_leaves(s, want[n], got[n], f"{path}.{n}")]
+    return [] if want == got else [(path, leaf_class(spec), want, got)]
+
+
+def failing_leaves(spec, obj, path="model"):
+    "[(path, class)] of the leaves that cannot be serialised on their own (names the payload when a whole model fails)"
+    from lenskit.parallel.serialize import shm_serialize
+    if isinstance(spec, list):
+        return [x for j, sp in enumerate(spec) for x in failing_leaves(sp, obj[j], f"{path}[{j}]")]
+    if spec.get("kind") is None:
+        return [x for n, sp in sorted(spec.items()) for x in failing_leaves(sp, obj[n], f"{path}.{n}")]
+    data = None
+    try:
+        data = shm_serialize(obj)
+        return []
+    except Exception:
+        return [(path, leaf_class(spec))]
+    finally:
+        for shm, _n in (data.buffers if data is not None else []):
+            if shm is not None:
+                shm.close()
+                shm.unlink()
 
 
 class TaskFailure(Exception):
